@@ -62,6 +62,8 @@ func refContents(ref idxlib.Ref) string {
 type step struct {
 	Op       int  `json:"op"` // index into alphabet, -1 = snapshot
 	Snapshot bool `json:"snapshot,omitempty"`
+	// With: writes submitted together with the snapshot tick (it fires while they are on their way into the group)
+	With []int `json:"with,omitempty"`
 }
 
 type crashPoint struct {
@@ -114,6 +116,15 @@ var directed = [][]step{
 	{{Op: 0}, {Op: 8}, {Op: 5}, {Op: -1, Snapshot: true}, {Op: 3}},
 }
 
+// the snapshot tick fires while writes are on their way into the group: whatever index the stored snapshot is labelled
+// with must be the index its contents correspond to. The writes are an update of an absent id followed by its insert -
+// applied a second time on top of their own effect they leave something else.
+var directedLoaded = [][]step{
+	{{Op: 1}, {Op: -1, Snapshot: true, With: []int{2, 0}}},
+	{{Op: 1}, {Op: -1, Snapshot: true, With: []int{2, 0}}, {Op: 3}},
+	{{Op: 1}, {Op: -1, Snapshot: true}, {Op: 3}, {Op: -1, Snapshot: true, With: []int{2, 0, 2}}},
+}
+
 func (c caseT) String() string {
 	s := fmt.Sprintf("N=%d [", c.Nodes)
 	if c.Burst {
@@ -123,7 +134,13 @@ func (c caseT) String() string {
 		s = fmt.Sprintf("N=%d (opposite schedule) [", c.Nodes)
 	}
 	for _, st := range c.History {
-		if st.Snapshot {
+		if st.Snapshot && len(st.With) > 0 {
+			s += "snapshot tick while {"
+			for _, o := range st.With {
+				s += alphabet[o].String() + "; "
+			}
+			s += "} are on their way; "
+		} else if st.Snapshot {
 			s += "snapshot; "
 		} else {
 			s += alphabet[st.Op].String() + "; "
@@ -176,6 +193,13 @@ func leader(w *sim.World) uint64 {
 // runCase executes one case; returns the number of durable writes the crash target performed
 // while the history ran, and a violation.
 func runCase(c caseT) (durable int, key, desc string) {
+	if c.Opposite {
+		for _, st := range c.History {
+			if len(st.With) > 0 {
+				return 0, "", "" // the opposite schedule would also reverse the order of the concurrent submissions
+			}
+		}
+	}
 	burst = c.Burst
 	defer func() { burst = false }()
 	w := sim.NewWorld(c.Nodes, func(n *sim.Node) sim.App { return &partApp{partlib.NewReplica()} })
@@ -204,8 +228,12 @@ func runCase(c caseT) (durable int, key, desc string) {
 	prefixStates := []string{refContents(ref)}
 	var wantOutcome []partlib.Outcome
 	for _, st := range c.History {
+		ops := st.With
 		if !st.Snapshot {
-			wantOutcome = append(wantOutcome, partlib.RefApply(ref, alphabet[st.Op]))
+			ops = []int{st.Op}
+		}
+		for _, o := range ops {
+			wantOutcome = append(wantOutcome, partlib.RefApply(ref, alphabet[o]))
 			prefixStates = append(prefixStates, refContents(ref))
 		}
 	}
@@ -216,7 +244,7 @@ func runCase(c caseT) (durable int, key, desc string) {
 		if ld == 0 || w.Nodes[ld-1].Crashed {
 			break // the proposer is gone: nothing more is submitted
 		}
-		if st.Snapshot {
+		if st.Snapshot && len(st.With) == 0 {
 			for _, n := range w.Nodes {
 				if !n.Crashed {
 					w.SnapshotTick(n.ID)
@@ -224,25 +252,43 @@ func runCase(c caseT) (durable int, key, desc string) {
 			}
 			continue
 		}
-		op := alphabet[st.Op]
 		app := w.Nodes[ld-1].App.(*partApp)
-		ch, nid := app.r.ExpectAt(pos)
-		entry := partlib.Entry(op, nid)
-		submitted++
-		w.Propose(ld, entry)
+		ops := []int{st.Op}
+		if st.Snapshot {
+			ops = st.With
+		}
+		var chans []<-chan interface{}
+		var entries [][]byte
+		for j, o := range ops {
+			ch, nid := app.r.ExpectAt(pos + j)
+			chans = append(chans, ch)
+			entries = append(entries, partlib.Entry(alphabet[o], nid))
+		}
+		submitted += len(ops)
+		if st.Snapshot {
+			w.SnapshotTickWith(ld, entries)
+		} else {
+			w.Propose(ld, entries[0])
+		}
 		drain(w)
-		select {
-		case res := <-ch:
-			// the outcome reached the waiting caller: that is the acknowledgement, even if the node
-			// crashes an instant later
-			if got := partlib.Canon(res, partlib.IsBatch(op)); got != wantOutcome[pos] {
-				return w.Durable[target] - base, "wrong-outcome", fmt.Sprintf("%v: entry %d %v acknowledged with %q, reference %q", c, pos, op, got, wantOutcome[pos])
+		for j, o := range ops {
+			if j > 0 {
+				pos++
 			}
-			if acked != pos {
-				return w.Durable[target] - base, "acknowledged-out-of-order", fmt.Sprintf("%v: entry %d acknowledged while %d earlier ones were not", c, pos, pos-acked)
+			op := alphabet[o]
+			select {
+			case res := <-chans[j]:
+				// the outcome reached the waiting caller: that is the acknowledgement, even if the node
+				// crashes an instant later
+				if got := partlib.Canon(res, partlib.IsBatch(op)); got != wantOutcome[pos] {
+					return w.Durable[target] - base, "wrong-outcome", fmt.Sprintf("%v: entry %d %v acknowledged with %q, reference %q", c, pos, op, got, wantOutcome[pos])
+				}
+				if acked != pos {
+					return w.Durable[target] - base, "acknowledged-out-of-order", fmt.Sprintf("%v: entry %d acknowledged while %d earlier ones were not", c, pos, pos-acked)
+				}
+				acked = pos + 1
+			default:
 			}
-			acked = pos + 1
-		default:
 		}
 		pos++
 		if c.Crash.Fail && len(w.Violations) > 0 && w.Violations[0].Key == "fatal" && !w.Nodes[target-1].Crashed {
@@ -452,6 +498,8 @@ func main() {
 		if !replicasOnly {
 			do(1, directed)
 		}
+		do(1, directedLoaded)
+		do(3, directedLoaded)
 		do(3, directed[:1]) // 64 KB log entries on three replicas make Badger flush and compact megabytes per case: keys only
 		if !replicasOnly {
 			do(1, histories(len1, true))
